@@ -106,3 +106,28 @@ for _metric, _swap in (("haversine", True), ("minkowski", False)):
                               f"eqr(result[i, 0], {_c(_src('i', 1 if _swap else 0))}) and eqr(result[i, 1], {_c(_src('i', 0 if _swap else 1))}))"],
                      options={"frames": True},
                      raises=[("Exception", "False", "only_if")])
+
+
+# ---- tree builders (C11, C12; dataflow): what the sklearn tree of an element kind is built from ------------------------------------
+# spherical: the (LATITUDE, LONGITUDE) columns of THAT element kind of this tree's grid, in radians, as numpy makes them (no cast to the
+# dtype of the stored coordinates), with THIS tree's metric; cartesian: the (x, y, z) columns; a tree already built is handed back.
+_GG = "uxarray.grid.grid.Grid."
+_SK = {"BallTree": "BallTree", "KDTree": "KDTree"}
+for _cls in ("BallTree", "KDTree"):
+    _Q = f"{_N}{_cls}."
+    for _kind, _b in _BUILD.items():
+        _p = {"nodes": "node", "face centers": "face", "edge centers": "edge"}[_kind]
+        _slot = _SLOT[_kind]
+
+        def _v(c):
+            return f"attr(summary('{_GG}{_p}_{c}', self._source_grid), 'values')"
+        _sph = f"attr(lib('numpy.vstack', (lib('numpy.deg2rad', {_v('lat')}), lib('numpy.deg2rad', {_v('lon')}))), 'T')"
+        _car = f"lib('numpy.stack', ({_v('x')}, {_v('y')}, {_v('z')}), axis=0 - 1)"
+        for _sys, _coords in (("spherical", _sph), ("cartesian", _car)):
+            contract(_Q + _b, props=["C11", "C12"], variant=f"built;{_sys}",
+                     params={"self": f"obj('{_cls}')"}, returns="opaque",
+                     requires=[f"same(self.coordinate_system, '{_sys}')", f"isnone(self.{_slot})"],
+                     ensures=[f"same(result, self.{_slot})",
+                              f"same(result, lib('sklearn.neighbors.{_SK[_cls]}', {_coords}, metric=self.distance_metric))"],
+                     options={"abstract": True, "summaries": [_GG + f"{_p}_{c}" for c in ("lon", "lat", "x", "y", "z")]},
+                     raises=[("Exception", "False", "only_if")])
